@@ -366,6 +366,11 @@ def check_refit_newdata(case, ctx):
     ctx.nontrivial(case["chained"] and case["alpha_first"])
     d1 = _chain_data(case["n1"], case["seed1"], case["k1"])
     d2 = _chain_data(case["n2"], case["seed2"], case["k2"])
+    if case["seed1"] % 2 == 0:
+        # the first record is a calmer one (its largest conditioning value is several interval widths below the second
+        # record's): nothing resolved from the first data (ranges, edges) may survive into the re-fit
+        d1 = d1[d1[:, 0] <= np.quantile(d1[:, 0], 0.7)]
+        ctx.cls("first_record_calmer")
     fd = [None, {"method": "wlsq", "weights": "quadratic"}] if case["wlsq"] else None
 
     def fit_desc_():
@@ -387,7 +392,11 @@ def check_refit_newdata(case, ctx):
         return
     dm, df_ = M.distributions[1], Fm.distributions[1]
     cv = np.asarray(dm.conditioning_values, dtype=float)
-    if not np.allclose(cv, np.asarray(df_.conditioning_values, dtype=float), rtol=1e-12):
+    cvf = np.asarray(df_.conditioning_values, dtype=float)
+    if cv.shape != cvf.shape:
+        ctx.violation("refit:interval_count", f"re-fitted model has {len(cv)} intervals ({cv.tolist()}), a first fit on the same data {len(cvf)} ({cvf.tolist()})")
+        return
+    if not np.allclose(cv, cvf, rtol=1e-12):
         ctx.violation("refit:conditioning_values", f"{cv.tolist()} vs fresh {np.asarray(df_.conditioning_values).tolist()}")
         return
     for t, (pa, pb) in enumerate(zip(dm.parameters_per_interval, df_.parameters_per_interval)):
